@@ -32,7 +32,8 @@ def phase_paths(run, pool):
     """C17: exhaustive small sweeps (algorithm-object entry points, routine x kind matrix, key interactions, large-draw
     programs), all invariants on, and the result of every call compared across ALL these histories."""
     t = time.time()
-    progs = P.path_programs_c17() + P.large_programs_c17() + P.matrix_programs_c17() + P.key_programs_c17()
+    progs = (P.path_programs_c17() + P.large_programs_c17() + P.matrix_programs_c17() + P.key_programs_c17()
+             + P.steps_programs_c17())
     n0 = run.evals
     table, conflicts = {}, []
 
@@ -47,7 +48,8 @@ def phase_paths(run, pool):
 
     def tag(p):
         c = p["program"]["config"]
-        return ("large:" if c.get("large") else "matrix:" if c.get("matrix") else "keys:" if c.get("keys") else "path:") + p["name"]
+        return ("large:" if c.get("large") else "matrix:" if c.get("matrix") else "keys:" if c.get("keys")
+                else "steps:" if c.get("steps") else "path:") + p["name"]
 
     pool.run(({"id": i, "prog_index": i, "kind": "program", "program": dict(p["program"], want_results=True), "name": p["name"],
                "want_program": False, "deadline": 240, "run_seed": tag(p)} for i, p in enumerate(progs)), on)
@@ -64,6 +66,7 @@ def phase_paths(run, pool):
                                             "operator_kinds": len(P.path_kinds()), "exhaustive": True,
                                             "routine_x_kind_matrix_programs": len(P.matrix_programs_c17()),
                                             "key_interaction_programs": len(P.key_programs_c17()),
+                                            "product_count_programs": len(P.steps_programs_c17()),
                                             "large_draw_programs": len(P.large_programs_c17()),
                                             "calls_compared_across_histories": len(table),
                                             "cross_history_conflicts": len(conflicts),
